@@ -182,6 +182,43 @@ def stage_measures(ctx, cov):
     return {"traces": [(o, "Trace_Pure") for o in outs]}
 
 
+RE_REPLAY = re.compile(r'<<"REPLAY", "(.*)">>')
+
+
+def stage_inserttxn(ctx, cov):
+    """MC of the insertion-transaction model (as coded + the stale-count design counterexample), then every behaviour
+    TLC generates replayed on the library through failpoint scripts and validated against the model"""
+    for run in (stage_mc("InsertTxn.tla", "MC_InsertTxn.cfg", workers=2),
+                stage_mc("InsertTxn.tla", "MC_InsertTxn_stale_count.cfg", workers=2, expect_violation=["AllOrNothing"])):
+        r = run(ctx, cov)
+        if r.get("tool_error") or r.get("violations"):
+            return r
+    thorough = ctx.tier == "thorough"
+    cfgp = os.path.join(ctx.wdir, "Gen_InsertTxn_run.cfg")
+    base = open(os.path.join(ctx.spec, "Gen_InsertTxn.cfg")).read()
+    if thorough:
+        base = base.replace("Counts = {0, 1, 3, 4}", "Counts = {0, 1, 2, 3, 4, 5}").replace("Ns = {1, 2}", "Ns = {1, 2, 3}")
+    open(cfgp, "w").write(base)
+    t0 = time.time()
+    rc, txt = ctx.run_tlc("InsertTxn.tla", cfgp, os.path.join(ctx.wdir, "gentxn_meta"), workers=1, timeout=1500, xmx="4g")
+    if rc is None or "Model checking completed" not in txt:
+        return {"tool_error": "Gen_InsertTxn failed:\n" + (txt or "")[-2000:]}
+    scripts = []
+    for line in txt.split("\n"):
+        mm = RE_REPLAY.match(line.strip())
+        if mm:
+            scripts.append(mm.group(1).encode().decode("unicode_escape"))
+    scripts = sorted(set(scripts))
+    cov["generated_scripts"] = len(scripts)
+    ctx.log("Gen_InsertTxn: %d behaviours of the insertion transaction in %.1fs" % (len(scripts), time.time() - t0))
+    sf = os.path.join(ctx.wdir, "txn_scripts.ndjson")
+    open(sf, "w").write("\n".join(scripts) + "\n")
+    outs, err = drive_family(ctx, "inserttxn", 6, ["--hist", sf])
+    if err:
+        return {"tool_error": err}
+    return {"traces": [(o, "Trace_InsertTxn") for o in outs]}
+
+
 def stage_family(ctx, fam, nparts, module, extra=None):
     outs, err = drive_family(ctx, fam, nparts, extra)
     if err:
@@ -311,7 +348,12 @@ PLANS = {
                      "list) whose construction returned Ok and whose result passed the full TLA+ oracle",
                 nontrivial=_key_construct),
     "C02": dict(level="model_checking", families=[("insert", 14, 16)],
-                rule="seeded insertion histories (empty or constructed start; random/degenerate/collinear-prefix/"
+                stages=[stage_inserttxn],
+                rule="(i) the insertion transaction model (spec/InsertTxn.tla: snapshot decision, attempts with rollback, "
+                     "index / count / hint updates, scheduled repair and check, final restore) checked exhaustively over all "
+                     "policies, counts and environment choices, with the stale-count variant as a design counterexample; every "
+                     "generated behaviour replayed on the library through failpoint scripts and validated (Trace_InsertTxn); "
+                     "(ii) seeded insertion histories (empty or constructed start; random/degenerate/collinear-prefix/"
                      "general-position lattice points; duplicates, reused uuids; policy changes mid-history), "
                      "D=2..5, both kernels, both profiles; distinct non-trivial = distinct Insert events that "
                      "reported Inserted (args+history tag)",
@@ -451,7 +493,9 @@ PLANS = {
                             "spec-generated exact vectors replayed into the implementation.",
                 nontrivial=lambda e: ((e["ev"], json.dumps(e.get("args"), sort_keys=True)) if e["ev"] == "Measure" else None)),
     "C03": dict(level="fault_enumeration", families=[("failpoints", 14, 16), ("remove", 6, 16), ("insert", 6, 16), ("flips", 6, 16), ("repair", 6, 16)],
-                rule="(i) FAILPOINTS: for insert / insert_with_statistics (interior, exterior), remove_vertex, Edit-API flips (k=1,2,3) "
+                stages=[stage_inserttxn],
+                rule="(o) the insertion transaction model InsertTxn.tla (AllOrNothing over all policies / counts / choices) and the "
+                     "replay of all its behaviours through failpoint scripts; (i) FAILPOINTS: for insert / insert_with_statistics (interior, exterior), remove_vertex, Edit-API flips (k=1,2,3) "
                      "and both repair entry points on bases in D=2..4 under three policy settings, a discovery run lists the "
                      "cfg(delaunay_verif) failpoint sites the call passes (insert attempt failing non-retryably / retryably "
                      "after the Tds was written, insert post-steps, three steps of vertex removal, three steps of flip "
